@@ -363,6 +363,10 @@ func (in *Interp) stringMethod(s string, name string, args []Value) (Value, *Err
 		if e != nil {
 			return nil, e
 		}
+		if n := strings.Count(s, a); n > 0 && n*len(b)+len(s) > 1<<22 {
+			// the result would have several megabytes (repeated replace of the empty string grows without bound)
+			return nil, &Err{Msg: "unspecified: string too large for the reference model", Unspec: true, Budget: true}
+		}
 		return strings.ReplaceAll(s, a, b), nil
 	case "toFloat":
 		f, err := strconv.ParseFloat(s, 64)
